@@ -173,6 +173,84 @@ def run(chk):
         if i % 40 == 0:
             chk.sample({"source": src, "declared": decls})
     chk.cov["oracle"]["twin"] = stats
+    supplied_sometimes(chk, rng)
+
+
+MSRC = '''
+def mystery(hat):
+    surprise: int
+    result = surprise * hat
+    return result
+
+def lucky(hat):
+    if hat > 100:
+        return BONUS + hat
+    return hat
+'''
+
+
+def supplied_sometimes(chk, rng):
+    """a sequence of calls in which the outside world supplies the declared variable for SOME calls only (a
+    conditional override), and a global that exists when the probe is activated and is deleted / restored between
+    calls: every call behaves on its own — supplied: proceeds with that value; not supplied: fails with the name
+    error at the declaration / at the use, never with a value left over from an earlier call, never with the marker"""
+    import ptera
+    from ptera.utils import ABSENT
+    from ptera.transform import PteraNameError
+    n = 20 if chk.tier == "quick" else 300
+    for i in range(n):
+        mod = pyprog.make_module(MSRC, "verif_c16_seq")
+        mod.BONUS = 1000
+        thr = rng.randrange(2, 6)
+        val = rng.randrange(5, 12)
+        seq = [rng.randrange(0, 9) for _ in range(rng.randrange(3, 8))]
+        outs = []
+        with ptera.probing("mystery(hat) > surprise", env=mod.__dict__, overridable=True) as prb:
+            prb.filter(lambda data, thr=thr: data["hat"] >= thr).override(val)
+            for h in seq:
+                try:
+                    outs.append(mod.mystery(h))
+                except PteraNameError as e:
+                    outs.append("PteraNameError:" + str(getattr(e, "varname", "?")))
+                except Exception as e:
+                    outs.append("%s: %s" % (type(e).__name__, e))
+        want = [val * h if h >= thr else "PteraNameError:surprise" for h in seq]
+        chk.count(("supplied-sometimes", thr, val, tuple(seq)), nontrivial=any(h >= thr for h in seq) and any(h < thr for h in seq))
+        chk.dist("declared variable supplied for some calls only")
+        if outs != want or any(o is ABSENT for o in outs):
+            chk.violation("oracle", "mystery(hat) with `surprise` supplied (= %d) only when hat >= %d: calls %r gave %r, "
+                          "each call on its own gives %r" % (val, thr, seq, outs, want),
+                          {"source": MSRC, "supplied": {"surprise": val}, "mode": "conditional", "args": seq})
+        # a global present at activation, deleted and restored between the calls (partial instrumentation)
+        ops = [rng.choice(["del", "set", "call-hi", "call-lo", "call-hi"]) for _ in range(rng.randrange(4, 9))]
+        got, wantg = [], []
+        cur = 1000
+        with ptera.probing("lucky > hat", env=mod.__dict__):
+            for op in ops:
+                if op == "del":
+                    if hasattr(mod, "BONUS"):
+                        del mod.BONUS
+                    cur = None
+                elif op == "set":
+                    cur = rng.randrange(1, 50)
+                    mod.BONUS = cur
+                else:
+                    h = 200 if op == "call-hi" else 3
+                    try:
+                        r = mod.lucky(h)
+                        got.append("marker" if r is ABSENT else r)
+                    except NameError:
+                        got.append("NameError family")
+                    except Exception as e:
+                        got.append("%s: %s" % (type(e).__name__, e))
+                    wantg.append(h if h <= 100 else ("NameError family" if cur is None else cur + h))
+        chk.count(("global-comes-and-goes", tuple(ops)), nontrivial="del" in ops)
+        chk.dist("global deleted / restored between calls")
+        if got != wantg:
+            chk.violation("oracle", "lucky(hat) under `lucky > hat` with the global BONUS deleted / restored between calls "
+                          "(%r): got %r, the untouched function gives %r" % (ops, got, wantg),
+                          {"source": MSRC, "mode": "global comes and goes", "args": ops, "supplied": {}})
+        pyprog.drop_module(mod)
 
 
 def replay(chk, path):
